@@ -275,7 +275,7 @@ func producers(s *gen.MsgSpec) []string {
 
 func runC12(r *ev.Run, rep *ev.ReplayDoc) ev.Summary {
 	sum := ev.Summary{
-		Rule: "for every shape (enumerated parts x embeds x attachments x message encoding incl. 7bit, S/MIME shapes, random shapes): a fault-free render, then EVERY k in [0, len(output)) with a sink that accepts exactly k bytes and fails afterwards, short-write sinks at sampled k, a destination that refuses exactly one write at every k and accepts everything after it (on a fresh message and on one that has been rendered before), every producer failing before/inside/after its data, and producer+sink fault pairs; multipart shapes also with caller-defined boundaries that mime/multipart refuses (only no-panic and the exact count are judged there). non-trivial = a fault was injected; distinct by (shape, fault)",
+		Rule: "for every shape (enumerated parts x embeds x attachments x message encoding incl. 7bit, S/MIME shapes, random shapes): a fault-free render, then EVERY k in [0, len(output)) with a sink that accepts exactly k bytes and fails afterwards, short-write sinks at sampled k, a destination that refuses exactly one write at every k and accepts everything after it (on a fresh message and on one that has been rendered before), every producer failing before/inside/after its data, caller-supplied ReadSeekers that fail in Read or cannot be rewound after delivering their data, and producer+sink fault pairs; multipart shapes also with caller-defined boundaries that mime/multipart refuses (only no-panic and the exact count are judged there). non-trivial = a fault was injected; distinct by (shape, fault)",
 		Assumptions: []string{
 			"a sink fault is persistent (every write after the first refused one fails too) except in the transient-sink group, where only the write crossing k is refused",
 			"the message is rebuilt for every fault so that a failed render cannot influence the next case (repeatability after a failed render is C11)",
@@ -332,6 +332,28 @@ func runC12(r *ev.Run, rep *ev.ReplayDoc) ev.Summary {
 				// producer fault together with a sink fault at a few offsets
 				for j := 0; j < 3; j++ {
 					jobs = append(jobs, job{c12Case{Spec: s, SinkLimit: rng.Int63n(L + 1), Faults: map[string]gen.Fault{p: {After: after, ErrKind: []string{"", "eof", "wrapped-eof"}[j]}}}})
+				}
+			}
+		}
+		// the fault sits in the caller's own io.ReadSeeker (library producer fileFromReadSeeker): reads fail, or the stream
+		// delivers everything and cannot be rewound afterwards
+		for fi, f := range s.Embeds {
+			if f.Source == "readseeker" && f.Chunk == 0 {
+				for _, ft := range []gen.Fault{{After: -1, ErrKind: "source-seek"}, {After: 0, ErrKind: "source-read"}, {After: 5, ErrKind: "source-read"}} {
+					if ft.After > 0 && len(f.Content) <= ft.After {
+						continue // the stream ends before the fault position
+					}
+					jobs = append(jobs, job{c12Case{Spec: s, SinkLimit: -1, Faults: map[string]gen.Fault{fmt.Sprintf("embed%d", fi): ft}}})
+				}
+			}
+		}
+		for fi, f := range s.Attach {
+			if f.Source == "readseeker" && f.Chunk == 0 {
+				for _, ft := range []gen.Fault{{After: -1, ErrKind: "source-seek"}, {After: 0, ErrKind: "source-read"}, {After: 5, ErrKind: "source-read"}} {
+					if ft.After > 0 && len(f.Content) <= ft.After {
+						continue
+					}
+					jobs = append(jobs, job{c12Case{Spec: s, SinkLimit: -1, Faults: map[string]gen.Fault{fmt.Sprintf("attach%d", fi): ft}}})
 				}
 			}
 		}
